@@ -134,7 +134,7 @@ func (f *Func) callGraph(args *argBuilder) (
 	}
 
 	// All named values that have no subtype can take a value from
-	// any other named value that has a subtype.
+	// any other value with the same name that has a subtype.
 	for _, raw := range g.Vertices() {
 		v, ok := raw.(*valueVertex)
 		if !ok || v.Subtype != "" || v.Value.IsValid() {
@@ -143,7 +143,7 @@ func (f *Func) callGraph(args *argBuilder) (
 
 		for _, raw := range g.Vertices() {
 			v2, ok := raw.(*valueVertex)
-			if !ok || v2.Type != v.Type || v2.Subtype == "" {
+			if !ok || v2.Name != v.Name || v2.Type != v.Type || v2.Subtype == "" {
 				continue
 			}
 
